@@ -55,6 +55,7 @@ class Subset(Harness):
                 rows = [symx.sym_int_range(f"r{j}", -n, n - 1) for j in range(k)]
                 ctx.assumptions.append("slice/slice_off positions within -nrow..nrow-1 (Python's negative positions included; out-of-range positions outside the claim)")
                 inp["rows"] = Arr("int64", rows)
+                inp["rows_form"] = choice("rows_form", ["array", "list", "iter"])
             else:
                 inp["rows"] = None
             ncol = len(cols)
